@@ -22,6 +22,7 @@ literals, paths, tuples, struct literals, field access, casts, unary `!`, binary
 `bits`, `union`/`|` on flags. Anything else raises (reported by run.py as a broken tie) - a rewrite outside the
 subset needs the translator extended, it is never silently skipped.
 """
+import json
 import os
 import re
 import sys
@@ -226,6 +227,8 @@ TARGETS = [
     T(REC, None, "p2_page", generic=True, lean="rec_p2_page"),
     T(REC, None, "p1_page", size="Size4KiB", lean="rec_p1_page"),
 ]
+
+SIGS_PATH = os.path.join(os.path.dirname(os.path.abspath(__file__)), "fn_sigs.json")
 
 TOK = re.compile(r"""\s*(?:(//[^\n]*|/\*.*?\*/)|(0x[0-9a-fA-F_]+|0b[01_]+|0o[0-7_]+|[0-9][0-9_]*)(?:_?([ui](?:8|16|32|64|size)))?|([A-Za-z_][A-Za-z0-9_]*!?)|("(?:[^"\\]|\\.)*")|(\.\.=|\.\.|::|->|=>|==|!=|<=|>=|<<=|>>=|<<|>>|&&|\|\||[+\-*/%&|^]=|[{}()\[\];,.:?!&|^+\-*/%<>=#'@]))""", re.S)
 
@@ -1919,6 +1922,7 @@ def generate(repo, outdir):
              "A type parameter `S: PageSize` is the explicit argument `S_SIZE` (= `S::SIZE`).", "-/",
              "import X86Model.Base.Rust", "", "set_option linter.unusedVariables false", "", "namespace X86.Generated.Src", "open X86", ""]
     defs = {}
+    sig_text = {}
     failed = dict(missing)   # lean name -> reason (outside the subset, or calls a function that is)
     for tg, ps, rty, full, body in parsed:
         em = Emit(tg, ctx)
@@ -1935,8 +1939,9 @@ def generate(repo, outdir):
             failed[tg.lean] = f"{tg.file}: {tg.impl or ''} fn {tg.fn}: {exn}"
             continue
         head = f"`{tg.impl + ' :: ' if tg.impl else ''}{tg.fn}` ({tg.file})"
+        sig_text[tg.lean] = "(cfg : Cfg) " + " ".join(binders) + f" : R ({full.lean()})"
         text = [f"/-- {head} -/",
-                f"def {tg.lean} (cfg : Cfg) " + " ".join(binders) + f" : R ({full.lean()}) :=",
+                f"def {tg.lean} {sig_text[tg.lean]} :=",
                 "  " + term, ""]
         defs[tg.lean] = (text, em.deps)
     # a function that calls an untranslated one is untranslated too
@@ -1949,6 +1954,15 @@ def generate(repo, outdir):
                 failed[k] = f"calls {bad[0]}, which could not be translated"
                 del defs[k]
                 changed = True
+    # stubs for the functions that could not be translated (signature from the last complete translation)
+    try:
+        known_sigs = json.load(open(SIGS_PATH))
+    except Exception:       # noqa: BLE001
+        known_sigs = {}
+    for k in sorted(failed):
+        if k in known_sigs:
+            defs[k] = ([f"/-- NOT TRANSLATED from the current source ({failed[k]}); stub so that references elaborate. -/",
+                        f"def {k} {known_sigs[k]} :=", "  R.panic", ""], set())
     # callees first (the source has no recursion among the translated functions; a cycle raises)
     done, order = set(), []
 
@@ -1965,17 +1979,24 @@ def generate(repo, outdir):
     for tg, *_ in parsed:
         if tg.lean in defs:
             visit(tg.lean, [])
+    for k in sorted(defs):          # stubs of functions that were not even found
+        visit(k, [])
     for key in order:
         lines += defs[key][0]
     lines += ["/-- Unfold every translated function (used by the tie proofs, `Properties/SrcTie.lean`). -/",
-              "macro \"src_unfold\" : tactic => `(tactic| simp only [" + ", ".join(order) + "] at *)", "",
+              "macro \"src_unfold\" : tactic => `(tactic| simp only [" + ", ".join(k for k in order) + "] at *)", "",
               "/-- Names of the translated functions (evidence). -/",
-              "def translated : List String := [" + ", ".join('"' + k + '"' for k in order) + "]", "",
+              "def translated : List String := [" + ", ".join('"' + k + '"' for k in order if k not in failed) + "]", "",
               "/-- Functions of the target list that are outside the translator's subset in the current source. -/",
               "def untranslated : List String := [" + ", ".join('"' + k + '"' for k in sorted(failed)) + "]", "",
               "end X86.Generated.Src", ""]
     path = os.path.join(outdir, "SrcFns.lean")
     write_if_changed(path, "\n".join(lines))
+    if not failed:
+        # remember the signatures: when a function later leaves the subset a stub with the same signature keeps
+        # everything that refers to it (driver, tie theorems) elaborating
+        sigs_now = {k: sig_text[k] for k in order}
+        write_if_changed(SIGS_PATH, json.dumps(sigs_now, indent=1, sort_keys=True) + "\n")
     for k in sorted(failed):
         print(f"gen_fns: UNTRANSLATED {k}: {failed[k]}")
     return [path]
